@@ -4,7 +4,8 @@
    checks of go/consensus/cometbft/stateless/core.go).  H is an arbitrary hash
    function with a fixed output length; it is never assumed injective
    (collision H := exists x y, x <> y /\ H x = H y). *)
-From Verif Require Import Lib.Base Stateless.Merkle Stateless.Proofs Stateless.Bind Stateless.BindProofs.
+From Verif Require Import Lib.Base Stateless.Merkle Stateless.Proofs Stateless.Bind Stateless.BindProofs
+  Stateless.Cache Stateless.CacheProofs Gen.StatelessApi Stateless.Api.
 
 Theorem proof_complete (H : bytes -> bytes) (hlen : nat) (H_len : forall x, length (H x) = hlen) (txs : list bytes) (i : nat) (p : proof) :
   length (snd (proofs_for_txs H txs)) = length txs /\
@@ -181,3 +182,39 @@ Theorem core_submit_tx_with_proof_binds (H : bytes -> bytes) (hlen : nat) (H_len
     (verify_transactions H txs lb = BOk -> In tx txs \/ collision H).
 Proof. exact (core_submit_tx_with_proof_binds_l H hlen H_len lbo p tx txs). Qed.
 Print Assumptions core_submit_tx_with_proof_binds.
+
+Theorem stateless_api_covered :
+  stateless_provider_backed = expected_provider_backed /\
+  map fst api_coverage = map fst stateless_provider_backed.
+Proof. exact stateless_api_covered_l. Qed.
+Print Assumptions stateless_api_covered.
+
+Theorem history_bound (H : bytes -> bytes) (dec : bytes -> meta_tx)
+        (V : Z -> light_block -> Prop) (R : Z -> option bytes -> Prop)
+        (ops : list cop) (st st' : cstate) (answers : list canswer) :
+  inv H dec V R st -> Forall (op_wf V R) ops -> crun H dec st ops = (st', answers) ->
+  inv H dec V R st' /\ Forall2 (answer_ok H dec V R) ops answers.
+Proof. exact (history_bound_l H dec V R ops st st' answers). Qed.
+Print Assumptions history_bound.
+
+Theorem history_from_init_bound (H : bytes -> bytes) (dec : bytes -> meta_tx)
+        (V : Z -> light_block -> Prop) (R : Z -> option bytes -> Prop)
+        (ops : list cop) (st' : cstate) (answers : list canswer) :
+  Forall (op_wf V R) ops -> crun H dec cstate_init ops = (st', answers) ->
+  inv H dec V R st' /\ Forall2 (answer_ok H dec V R) ops answers.
+Proof. exact (history_bound_l H dec V R ops cstate_init st' answers (inv_init H dec V R)). Qed.
+Print Assumptions history_from_init_bound.
+
+Theorem state_root_unique (H : bytes -> bytes) (hlen : nat) (H_len : forall x, length (H x) = hlen)
+        (dec : bytes -> meta_tx) (V : Z -> light_block -> Prop) (h : Z) (r1 r2 : bytes) :
+  (forall k l1 l2, V k l1 -> V k l2 -> l1 = l2) ->
+  (forall n l txs r, V (h + 1)%Z n -> V h l -> verify_transactions H txs l = BOk ->
+     state_root_from_block_txs dec txs = SrOk r -> state_root_from_light_block n = SrOk r) ->
+  sr_bound H dec V h r1 -> sr_bound H dec V h r2 -> r1 = r2 \/ collision H.
+Proof. exact (state_root_unique_l H hlen H_len dec V h r1 r2). Qed.
+Print Assumptions state_root_unique.
+
+Theorem lru_capacity_respected (V : Type) (cap : nat) (k : Z) (v : V) (l : list (Z * V)) :
+  (1 <= cap)%nat -> (length (lru_put cap k v l) <= cap)%nat.
+Proof. exact (lru_put_length cap k v l). Qed.
+Print Assumptions lru_capacity_respected.
